@@ -52,8 +52,9 @@ func (fr *Frame) callspecs(name string) []callspecRec {
 				out = append(out, callspecRec{kind: flds[1], text: rest, cl: cl, fr: f})
 			}
 		}
-		// only closures look further up: an inlined named callee has its own (or no) callspecs
-		if f.fn.Parent() == nil {
+		// closures look further up; so does a named callee that has no contract of its own and is executed as
+		// part of its caller's body (inlined): its calls are the caller's calls
+		if f.fn.Parent() == nil && !(f.spec == nil && f.parent != nil) {
 			break
 		}
 	}
@@ -66,6 +67,8 @@ func (fr *Frame) call(site ssa.Instruction, c *ssa.CallCommon, st *State) []Val 
 		name = c.Method.Name()
 	} else if f := c.StaticCallee(); f != nil {
 		name = f.Name()
+	} else if b, ok := c.Value.(*ssa.Builtin); ok && b.Name() == "close" {
+		name = "close" // closing a channel is a signal to other goroutines: call-site conditions may speak about it
 	}
 	var cs []callspecRec
 	if name != "" {
